@@ -171,6 +171,160 @@ theorem c20_restore_after_processes_partial (prof : Bool) (rep : Report) (body :
 -- non-vacuity: a body that ends what it starts
 example : openProcs (([BodyEv.start 1, .stop 1, .start 2, .sudoKill 2, .stop 2]).map .body) [] = [] := by decide
 
+/-! ## the parallel scheduler: the main thread restores while worker threads execute -/
+
+theorem takeFrom_perm (i : Nat) (ws : List (List BodyEv)) (e : BodyEv) (ws' : List (List BodyEv))
+    (h : takeFrom i ws = some (e, ws')) : (e :: ws'.flatten).Perm ws.flatten := by
+  induction ws generalizing i ws' with
+  | nil => cases i <;> simp [takeFrom] at h
+  | cons w ws ih =>
+    cases i with
+    | zero =>
+      cases w with
+      | nil => simp [takeFrom] at h
+      | cons x xs =>
+        simp only [takeFrom, Option.some.injEq, Prod.mk.injEq] at h
+        obtain ⟨rfl, rfl⟩ := h
+        simp
+    | succ i =>
+      simp only [takeFrom, Option.map_eq_some_iff] at h
+      obtain ⟨p, hp, hpe⟩ := h
+      obtain ⟨pe, pws⟩ := p
+      simp only [Prod.mk.injEq] at hpe
+      obtain ⟨rfl, rfl⟩ := hpe
+      have := ih i pws hp
+      simp only [List.flatten_cons]
+      exact (List.perm_middle.symm).trans (List.Perm.append_left w this)
+
+/-- whatever the schedule, the global order contains exactly the workers' events -/
+theorem c20_interleave_perm (sched : List Nat) (ws : List (List BodyEv)) :
+    (interleave sched ws).Perm ws.flatten := by
+  induction sched generalizing ws with
+  | nil => simp [interleave]
+  | cons i is ih =>
+    simp only [interleave]
+    cases h : takeFrom i ws with
+    | none => exact ih ws
+    | some p =>
+      obtain ⟨e, ws'⟩ := p
+      exact (List.Perm.cons e (ih ws')).trans (takeFrom_perm i ws e ws' h)
+
+theorem openIn_append (a b : List BodyEv) (acc : List Nat) :
+    openIn (a ++ b) acc = openIn b (openIn a acc) := by
+  induction a generalizing acc with
+  | nil => rfl
+  | cons e es ih => cases e <;> simp [openIn, ih]
+
+theorem openIn_abortTail (w : Bool) (run cur : List Nat) :
+    openIn (abortTail w run) cur = cur.filter (fun x => x ∉ run) := by
+  induction run generalizing cur with
+  | nil => simp [abortTail, openIn]
+  | cons i rest ih =>
+    have : abortTail w (i :: rest) =
+        (if w then [BodyEv.sudoKill i] else []) ++ [BodyEv.stop i] ++ abortTail w rest := by
+      simp [abortTail]
+    rw [this, openIn_append, openIn_append]
+    have h1 : openIn (if w then [BodyEv.sudoKill i] else []) cur = cur := by
+      cases w <;> simp [openIn]
+    rw [h1]
+    simp only [openIn, ih, List.filter_filter]
+    congr 1
+    funext x
+    simp only [List.mem_cons, not_or]
+    by_cases h1 : x = i <;> by_cases h2 : x ∈ rest <;> simp [h1, h2]
+
+def bodyOf : List Ev → List BodyEv
+  | [] => []
+  | .body b :: es => b :: bodyOf es
+  | _ :: es => bodyOf es
+
+theorem bodyOf_map (es : List BodyEv) : bodyOf (es.map .body) = es := by
+  induction es with
+  | nil => rfl
+  | cons e es ih => simp [bodyOf, ih]
+
+theorem bodyOf_append (a b : List Ev) : bodyOf (a ++ b) = bodyOf a ++ bodyOf b := by
+  induction a with
+  | nil => rfl
+  | cons e es ih => cases e <;> simp [bodyOf, ih]
+
+theorem openProcs_eq_openIn (es : List Ev) (acc : List Nat) :
+    openProcs es acc = (openIn (bodyOf es) acc.reverse).reverse := by
+  induction es generalizing acc with
+  | nil => simp [openProcs, bodyOf, openIn]
+  | cons e es ih =>
+    cases e with
+    | sudoMinimize p => simpa [openProcs, bodyOf] using ih acc
+    | sudoRestore a b => simpa [openProcs, bodyOf] using ih acc
+    | body be =>
+      cases be with
+      | start i => simp [openProcs, bodyOf, openIn, ih]
+      | stop i => simp [openProcs, bodyOf, openIn, ih, List.filter_reverse]
+      | sudoKill i => simpa [openProcs, bodyOf, openIn] using ih acc
+
+/-- The repaired parallel scheduler, for every report that changed a setting, every global
+order `G` of the workers' events, and every point `p` at which Ctrl-C / SIGTERM arrives (or
+none): exactly one `restore`, it is the last event — no benchmark is started after it — and no
+benchmark process is running when it is issued (the running ones are killed first; without an
+interrupt this needs `G` to end what it starts, which the workers do before they are joined). -/
+theorem c20_par_restore_once (prof : Bool) (rep : Report) (g : Bool → Bool → List BodyEv)
+    (at? : Option Nat) (e : Ending) (h : changed rep = true)
+    (hclosed : at? = none → ∀ n s, openIn (g n s) [] = []) :
+    ∃ pre ws wn, (parSession prof rep g at? e).1 = pre ++ [.sudoRestore ws wn] ∧
+      (∀ x ∈ pre, x.isRestore = false) ∧ openProcs pre [] = [] := by
+  unfold changed at h
+  cases hm : minimize rep with
+  | none => simp [hm] at h
+  | some res =>
+    simp only [hm, Bool.not_eq_true'] at h
+    cases at? with
+    | none =>
+      refine ⟨[.sudoMinimize prof] ++ (g res.useNice res.useShielding).map .body,
+        !res.useShielding, !res.useNice, ?_, ?_, ?_⟩
+      · simp [parSession, hm, restoreNoise, h]
+      · intro x hx
+        simp only [List.mem_append, List.mem_singleton, List.mem_map] at hx
+        rcases hx with rfl | ⟨b, _, rfl⟩ <;> rfl
+      · rw [openProcs_eq_openIn]
+        simp [bodyOf_append, bodyOf, bodyOf_map, hclosed rfl]
+    | some p =>
+      refine ⟨[.sudoMinimize prof] ++ ((g res.useNice res.useShielding).take p).map .body ++
+        (abortTail (res.useNice || res.useShielding)
+          (openIn ((g res.useNice res.useShielding).take p) [])).map .body,
+        !res.useShielding, !res.useNice, ?_, ?_, ?_⟩
+      · simp [parSession, hm, restoreNoise, h]
+      · intro x hx
+        simp only [List.mem_append, List.mem_singleton, List.mem_map] at hx
+        rcases hx with (rfl | ⟨b, _, rfl⟩) | ⟨b, _, rfl⟩ <;> rfl
+      · rw [openProcs_eq_openIn]
+        simp only [bodyOf_append, bodyOf, bodyOf_map, List.nil_append, List.reverse_nil]
+        rw [openIn_append, openIn_abortTail]
+        simp
+
+/-- FULL STATEMENT for the pinned tree's scheduler (false): the interrupt reaches only the
+main thread, `restore` is issued in the middle of the workers' events -/
+theorem c20_par_pinned_full_fails :
+    ¬ ∀ (prof : Bool) (rep : Report) (g : Bool → Bool → List BodyEv) (p : Nat) (e : Ending),
+        changed rep = true → (∀ n s, openIn (g n s) [] = []) →
+        RestoreAfterEnds (parSessionPinned prof rep g (some p) e).1 := by
+  intro h
+  have := h false (.json (some .yes) (some .yes) [])
+    (fun _ _ => [.start 1, .stop 1, .start 2, .stop 2]) 1 .interrupt (by decide) (by decide)
+    [.sudoMinimize false, .body (.start 1)] false false
+    [.body (.stop 1), .body (.start 2), .body (.stop 2)] (by decide)
+  revert this
+  decide
+
+/-- … and on the pinned tree every remaining benchmark is still executed after the restore -/
+theorem c20_par_pinned_work_continues (prof : Bool) (rep : Report) (g : Bool → Bool → List BodyEv)
+    (p : Nat) (e : Ending) (res : Result) (hm : minimize rep = some res) :
+    bodyOf (parSessionPinned prof rep g (some p) e).1 = g res.useNice res.useShielding := by
+  have hr : bodyOf (restoreNoise (some res)) = [] := by
+    simp only [restoreNoise]; split <;> rfl
+  simp only [parSessionPinned, hm, bodyOf_append, bodyOf, bodyOf_map, hr, List.nil_append,
+    List.append_nil]
+  exact List.take_append_drop p _
+
 /-! ## "wrapped with exactly the capabilities the start-up step reported" -/
 
 /-- the command is prefixed with
